@@ -115,12 +115,65 @@ def work(job):
     return n, bad
 
 
+# wall clocks that a real zone skips or repeats: as RELATIVE_BASE, and as what a relative phrase
+# or a clock time lands on (full cross product with the strings below)
+D = datetime.datetime
+ZONE_EDGE_SETTINGS = [
+    {"RELATIVE_BASE": D(2021, 3, 15, 2, 30), "TIMEZONE": "America/New_York"},
+    {"RELATIVE_BASE": D(2021, 3, 13, 2, 30), "TIMEZONE": "America/New_York", "TO_TIMEZONE": "UTC"},
+    {"RELATIVE_BASE": D(2021, 3, 14, 2, 30), "TIMEZONE": "America/New_York",
+     "RETURN_AS_TIMEZONE_AWARE": True},
+    {"RELATIVE_BASE": D(2021, 11, 8, 1, 30), "TIMEZONE": "America/New_York"},
+    {"RELATIVE_BASE": D(2021, 11, 7, 1, 30), "TIMEZONE": "America/New_York", "TO_TIMEZONE": "Asia/Tokyo"},
+    {"RELATIVE_BASE": D(2021, 4, 28, 2, 30), "TIMEZONE": "Europe/Paris"},
+    {"RELATIVE_BASE": D(2021, 10, 31, 2, 30), "TIMEZONE": "Europe/Paris", "PREFER_DATES_FROM": "future"},
+    {"RELATIVE_BASE": D(2021, 10, 3, 2, 15), "TIMEZONE": "Australia/Lord_Howe", "PREFER_DATES_FROM": "past"},
+]
+ZONE_EDGE_STRINGS = ["1 day ago", "yesterday", "in 1 day", "tomorrow", "24 hours ago", "in 24 hours",
+                     "il y a 1 mois", "1 month ago", "in 1 week", "1 week ago", "now", "today", "02:30",
+                     "01:30", "2:15 am", "Sunday", "14 March 2021 02:30", "7 November 2021 01:30",
+                     "1 hour ago", "in 60 minutes", "1 year ago", "March", "2021-03-14T02:30:00",
+                     "1615707000", "yesterday at 02:30", "1 day ago 2:30"]
+
+
+def work_edge(job):
+    import dateparser
+    from dateparser.date import DateData, DateDataParser
+
+    si, ti = job
+    st, s = ZONE_EDGE_SETTINGS[si], ZONE_EDGE_STRINGS[ti]
+    bad = []
+    for lg in (None, ["en", "fr"]):
+        try:
+            r = dateparser.parse(s, languages=lg, settings=dict(st))
+            if r is not None and not isinstance(r, datetime.datetime):
+                bad.append((s, si, "parse returned %r" % (r,)))
+        except Exception as e:
+            bad.append((s, si, "parse raised %s: %s [zone-edge settings %d]" % (type(e).__name__,
+                                                                               str(e)[:60], si)))
+        try:
+            d = DateDataParser(languages=lg, settings=dict(st)).get_date_data(s)
+            if not (isinstance(d, DateData) and (d.date_obj is not None or d.locale is None)):
+                bad.append((s, si, "get_date_data returned %r" % (d,)))
+        except Exception as e:
+            bad.append((s, si, "get_date_data raised %s: %s [zone-edge settings %d]" % (
+                type(e).__name__, str(e)[:60], si)))
+    return 4, bad
+
+
 def main():
     a = args()
     ss = strings(a.tier)
     res = pmap(work, list(enumerate(ss)), a.procs)
+    edge = pmap(work_edge, [(i, j) for i in range(len(ZONE_EDGE_SETTINGS))
+                            for j in range(len(ZONE_EDGE_STRINGS))], a.procs)
     failures = []
     total = 0
+    for n, bad in edge:
+        total += n
+        for s, si, detail in bad:
+            failures.append({"id": "zone-edge:%s:%d" % (detail.split(":")[0][:40], si),
+                             "input": "%r settings=%r" % (s, ZONE_EDGE_SETTINGS[si]), "detail": detail})
     for n, bad in res:
         total += n
         for s, c, detail in bad:
